@@ -53,6 +53,7 @@ def lookup(I, d: LazyDictV, key, node=None):
     """-> overlay entry [key, value, present] for key (materialising it if untouched)"""
     for e in d.overlay:
         if _dec(I, lib.eq(I, key, e[0], node)):
+            _apply_pending(I, e)
             return e
     present = False
     if d.base_alive:
@@ -68,11 +69,22 @@ def lookup(I, d: LazyDictV, key, node=None):
     else:
         e = [key, None, False, None, False]
     d.overlay.append(e)
-    if present:
+    if present and d.universals:
         # what is known about EVERY entry of the base holds for this one
-        for kind, fact in list(d.universals):
-            fact(key if kind == "keys" else v if kind == "values" else (key, v))
+        e.append([(kind, fact) for kind, fact in d.universals])
+        _apply_pending(I, e)
     return e
+
+
+def _apply_pending(I, e):
+    """universal facts not yet applied to this entry (an application that was interrupted --
+    e.g. inside a speculative evaluation -- is resumed at the next look at the entry)"""
+    if len(e) < 6 or not e[5]:
+        return
+    while e[5]:
+        kind, fact = e[5][0]
+        fact(e[0] if kind == "keys" else e[3] if kind == "values" else (e[0], e[3]))
+        e[5].pop(0)
 
 
 def getitem(I, d, key, node=None):
